@@ -782,6 +782,13 @@ fn type_rule_to_rust_def(
     let type1 = &tc.type1;
     match &type1.type2 {
       Type2::Map { group, .. } => {
+        // A rule that is a table (`headers = { * tstr => T }`) is the map
+        // itself, as it is when the same type is written inline as a field
+        // type; a struct with an `entries` field would not deserialize from
+        // the table's instances.
+        if let Some(target) = detect_table_type(group)? {
+          return Ok(Some(RustTypeDef::TypeAlias { name, target, doc }));
+        }
         let fields = group_to_fields(group, comments)?;
         Ok(Some(RustTypeDef::Struct { name, fields, doc }))
       }
